@@ -166,72 +166,88 @@ long verif_neg_allocs = 0;      /* absurd (>= 2^40 bytes) requests */
 #ifndef VERIF_NO_REDZONE
 #define RZ 64
 #define CANARY 0xCB
-#define LIVE_MAX 8192
-typedef struct { unsigned char *base; size_t size; } live_t;
-static live_t live[LIVE_MAX];
-static long n_live = 0;
+#define HDR (sizeof(size_t) * 3)            /* size, magic, index in the live table */
+#define MAGIC ((size_t)0x53494D5156455249ULL)
+
+static unsigned char **live = NULL;         /* growable table of live blocks (O(1) insert / remove through the header index) */
+static long n_live = 0, cap_live = 0;
 
 static void fill(unsigned char *p, size_t n, int c) { memset(p, c, n); }
+static size_t hdr_get(unsigned char *base, int k) { size_t v; memcpy(&v, base + k * sizeof(size_t), sizeof(size_t)); return v; }
+static void hdr_set(unsigned char *base, int k, size_t v) { memcpy(base + k * sizeof(size_t), &v, sizeof(size_t)); }
 
 static int check_block(unsigned char *base, size_t size) {
     size_t i; int bad = 0;
-    for (i = sizeof(size_t); i < RZ; i++) if (base[i] != CANARY) bad = 1;
+    for (i = HDR; i < RZ; i++) if (base[i] != CANARY) bad = 1;
     for (i = 0; i < RZ; i++) if (base[RZ + size + i] != CANARY) bad = 1;
     return bad;
 }
 
-static long find_live(unsigned char *base) {
-    long i;
-    for (i = n_live - 1; i >= 0; i--) if (live[i].base == base) return i;
-    return -1;
+static int owned(unsigned char *base) {
+    long idx;
+    if (hdr_get(base, 1) != MAGIC) return 0;
+    idx = (long)hdr_get(base, 2);
+    return idx >= 0 && idx < n_live && live[idx] == base;
+}
+
+static void live_remove(unsigned char *base) {
+    long idx = (long)hdr_get(base, 2);
+    live[idx] = live[n_live - 1];
+    hdr_set(live[idx], 2, (size_t)idx);
+    n_live--;
 }
 
 void *verif_malloc(size_t size) {
     unsigned char *base;
     if (size == 0) verif_zero_allocs++;
     if (size >= ((size_t)1 << 40)) { verif_neg_allocs++; return NULL; }
+    if (n_live >= cap_live) {
+        long ncap = cap_live ? cap_live * 2 : 1024;
+        unsigned char **nl = (unsigned char**)realloc(live, ncap * sizeof(unsigned char*));
+        if (!nl) return NULL;
+        live = nl; cap_live = ncap;
+    }
     base = (unsigned char*)malloc(size + 2 * RZ);
     if (!base) return NULL;
-    memcpy(base, &size, sizeof(size_t));
-    fill(base + sizeof(size_t), RZ - sizeof(size_t), CANARY);
+    hdr_set(base, 0, size); hdr_set(base, 1, MAGIC); hdr_set(base, 2, (size_t)n_live);
+    fill(base + HDR, RZ - HDR, CANARY);
     fill(base + RZ, size, 0xA5);
     fill(base + RZ + size, RZ, CANARY);
-    if (n_live < LIVE_MAX) { live[n_live].base = base; live[n_live].size = size; n_live++; }
+    live[n_live++] = base;
     verif_allocs++; verif_bytes += (long)size; verif_live_bytes += (long)size;
     if (verif_live_bytes > verif_highwater) verif_highwater = verif_live_bytes;
     return base + RZ;
 }
 
 void verif_free(void *p) {
-    unsigned char *base; long k; size_t size;
+    unsigned char *base; size_t size;
     if (!p) return;
     base = (unsigned char*)p - RZ;
-    k = find_live(base);
-    if (k < 0) { verif_bad_free++; return; }   /* not ours (or double free): do not touch */
-    size = live[k].size;
+    if (!owned(base)) { verif_bad_free++; return; }   /* not ours (or double free): do not touch */
+    size = hdr_get(base, 0);
     if (check_block(base, size)) verif_canary_bad++;
-    live[k] = live[n_live - 1]; n_live--;
+    live_remove(base);
     verif_frees++; verif_live_bytes -= (long)size;
+    hdr_set(base, 1, 0);
     fill(base + RZ, size, 0xDD);
     free(base);
 }
 
 void *verif_realloc(void *p, size_t size) {
-    unsigned char *base; long k; size_t old; void *q;
+    unsigned char *base; size_t old; void *q;
     if (!p) return verif_malloc(size);
     base = (unsigned char*)p - RZ;
-    k = find_live(base);
-    if (k < 0) { verif_bad_free++; return NULL; }
-    old = live[k].size;
+    if (!owned(base)) { verif_bad_free++; return NULL; }
+    old = hdr_get(base, 0);
     if (check_block(base, old)) verif_canary_bad++;
     verif_reallocs++;
     q = verif_malloc(size);
     if (!q) return NULL;
     verif_allocs--;            /* a realloc is neither an alloc nor a free */
     memcpy(q, p, old < size ? old : size);
-    k = find_live(base);
-    live[k] = live[n_live - 1]; n_live--;
+    live_remove(base);
     verif_live_bytes -= (long)old;
+    hdr_set(base, 1, 0);
     fill(base + RZ, old, 0xDD);
     free(base);
     return q;
@@ -241,7 +257,7 @@ long verif_live_blocks(void) { return n_live; }
 
 long verif_check_live(void) {   /* red zones of blocks still alive */
     long i, bad = 0;
-    for (i = 0; i < n_live; i++) bad += check_block(live[i].base, live[i].size);
+    for (i = 0; i < n_live; i++) bad += check_block(live[i], hdr_get(live[i], 0));
     return bad;
 }
 
